@@ -249,4 +249,141 @@ theorem keyRejected_false_iff (k : List Char) : keyRejected k = false ↔ Suppor
     · have : ¬ (family.all isLowerAlpha = true) := fun h => (all_lower_iff family).mp h hc
       simp [this]
 
+theorem takeWhile_append_stop (p : Char → Bool) (a b : List Char) (ha : ∀ c ∈ a, p c = true)
+    (hb : b = [] ∨ ∃ c tl, b = c :: tl ∧ p c = false) :
+    (a ++ b).takeWhile p = a ∧ (a ++ b).dropWhile p = b := by
+  induction a with
+  | nil =>
+    rcases hb with rfl | ⟨c, tl, rfl, hc⟩
+    · simp
+    · simp [hc]
+  | cons x xs ih =>
+    have hx := ha x (by simp)
+    have := ih (fun c hc => ha c (List.mem_cons_of_mem _ hc))
+    simp [hx, this]
+
+theorem flatMap_bracket_head (names : List (List Char)) :
+    names.flatMap bracket = [] ∨ ∃ c tl, names.flatMap bracket = c :: tl ∧ c = '[' := by
+  cases names with
+  | nil => left; rfl
+  | cons n ns => right; exact ⟨'[', n ++ ']' :: ns.flatMap bracket, by simp [bracket], rfl⟩
+
+/-- Completeness of the `groups` parser. -/
+theorem groups_complete (names : List (List Char)) (hn : ∀ n ∈ names, memberName n = true) :
+    ∀ fuel, (names.flatMap bracket).length ≤ fuel → groups fuel (names.flatMap bracket) = some names := by
+  induction names with
+  | nil => intro fuel _; cases fuel <;> rfl
+  | cons n ns ih =>
+    intro fuel hf
+    have hmem := hn n (by simp)
+    have hstop := takeWhile_append_stop (fun c => c != '[' && c != ']') n (']' :: ns.flatMap bracket)
+      (by
+        intro c hc
+        have := nameChar_not_bracket (memberName_all hmem c hc)
+        simp [this.1, this.2])
+      (Or.inr ⟨']', _, rfl, by decide⟩)
+    cases fuel with
+    | zero => simp [bracket] at hf
+    | succ fuel =>
+      have hlen : (ns.flatMap bracket).length ≤ fuel := by
+        simp only [List.flatMap_cons, bracket, List.length_append, List.length_cons] at hf
+        omega
+      have hrec := ih (fun m hm => hn m (List.mem_cons_of_mem _ hm)) fuel hlen
+      have heq : bracket n ++ ns.flatMap bracket = '[' :: (n ++ ']' :: ns.flatMap bracket) := by
+        simp [bracket]
+      simp only [List.flatMap_cons, heq, groups]
+      simp [hstop.1, hstop.2, hmem, hrec]
+
+/-- Soundness of the `groups` parser. -/
+theorem groups_sound : ∀ (fuel : Nat) (rest : List Char) (names : List (List Char)),
+    groups fuel rest = some names → rest = names.flatMap bracket ∧ ∀ n ∈ names, memberName n = true := by
+  intro fuel
+  induction fuel with
+  | zero =>
+    intro rest names h
+    cases rest with
+    | nil => simp [groups] at h; subst h; simp
+    | cons c tl => simp [groups] at h
+  | succ fuel ih =>
+    intro rest names h
+    cases rest with
+    | nil => simp [groups] at h; subst h; simp
+    | cons c tl =>
+      simp only [groups] at h
+      split at h
+      · rename_i hc
+        have hc' : c = '[' := by simpa using hc
+        split at h
+        · rename_i rest' hd
+          split at h
+          · rename_i hm
+            cases hg : groups fuel rest' with
+            | none => simp [hg] at h
+            | some names' =>
+              simp [hg] at h
+              subst h
+              obtain ⟨h1, h2⟩ := ih rest' names' hg
+              have htl := List.takeWhile_append_dropWhile (p := fun c => c != '[' && c != ']') (l := tl)
+              rw [hd] at htl
+              generalize List.takeWhile (fun c => c != '[' && c != ']') tl = name at htl hm ⊢
+              subst htl
+              refine ⟨?_, ?_⟩
+              · rw [hc', h1]; simp [bracket]
+              · intro m hm'
+                rcases List.mem_cons.mp hm' with rfl | hm'
+                · exact hm
+                · exact h2 m hm'
+          · simp at h
+        · simp at h
+      · simp at h
+
+theorem any_not_lower_iff (family : List Char) :
+    family.any (fun c => !('a' ≤ c && c ≤ 'z')) = true ↔ ∃ c ∈ family, ¬ ('a' ≤ c ∧ c ≤ 'z') := by
+  simp only [List.any_eq_true]
+  constructor <;> rintro ⟨c, hc, h⟩ <;> refine ⟨c, hc, ?_⟩
+  · rintro ⟨h1, h2⟩; simp [h1, h2] at h
+  · by_cases h1 : 'a' ≤ c
+    · by_cases h2 : c ≤ 'z'
+      · exact absurd ⟨h1, h2⟩ h
+      · simp [h1, h2]
+    · simp [h1]
+
+/-- The executable `supportedKey` decides the declarative `Supported`. -/
+theorem supportedKey_iff (k : List Char) : supportedKey k = true ↔ Supported k := by
+  constructor
+  · intro h
+    simp only [supportedKey, Bool.and_eq_true, Bool.or_eq_true, beq_iff_eq, Option.isSome_iff_exists] at h
+    obtain ⟨⟨hfam, names, hg⟩, hres⟩ := h
+    obtain ⟨h1, h2⟩ := groups_sound _ _ _ hg
+    refine ⟨_, names, ⟨?_, hfam, h2⟩, ?_⟩
+    · rw [← h1]; exact (List.takeWhile_append_dropWhile).symm
+    · rcases hres with hp | ha
+      · left; exact hp
+      · right; exact (any_not_lower_iff _).mp ha
+  · rintro ⟨family, names, ⟨rfl, hfam, hnames⟩, hres⟩
+    have hstop := takeWhile_append_stop (fun c => c != '[') family (names.flatMap bracket)
+      (by
+        intro c hc
+        have := nameChar_not_bracket (memberName_all hfam c hc)
+        simp [this.1])
+      (by
+        rcases flatMap_bracket_head names with h | ⟨c, tl, h, rfl⟩
+        · left; exact h
+        · right; exact ⟨_, tl, h, by decide⟩)
+    simp only [supportedKey, hstop.1, hstop.2, hfam, groups_complete names hnames _ (Nat.le_refl _)]
+    simp only [Option.isSome_some, Bool.and_self, Bool.true_and, Bool.or_eq_true, beq_iff_eq]
+    rcases hres with hp | ha
+    · left; exact hp
+    · right; exact (any_not_lower_iff _).mpr ha
+
+theorem keyRejected_eq (k : List Char) : keyRejected k = !supportedKey k := by
+  have h1 := keyRejected_false_iff k
+  have h2 := supportedKey_iff k
+  cases hk : keyRejected k <;> cases hs : supportedKey k <;> simp_all
+
+theorem query_check_eq (q : List (List Char)) : q.any keyRejected = !q.all supportedKey := by
+  induction q with
+  | nil => rfl
+  | cons k ks ih => simp [List.any_cons, List.all_cons, ih, keyRejected_eq, Bool.not_and]
+
 end ApiFu.C19
